@@ -32,12 +32,33 @@ func (c cfgSpec) build() *httpserver.Config {
 	}
 }
 
+var eqSeen = map[string]bool{}
+
 func emitEq(a, b cfgSpec) {
+	k := a.enc() + "\t" + b.enc()
+	if eqSeen[k] {
+		return // only distinct pairs are emitted
+	}
+	eqSeen[k] = true
 	r := 0
 	if a.build().Equal(b.build()) {
 		r = 1
 	}
 	emitLine("EQ\t%s\t%s\t%d", a.enc(), b.enc(), r)
+}
+
+// emitRouteEq: the public Route.Equal on a pair of routes (RQ line).
+func emitRouteEq(a, b rt) {
+	x, err1 := httpserver.NewRouteFromHandlerFunc(a.Name, a.Path, noop)
+	y, err2 := httpserver.NewRouteFromHandlerFunc(b.Name, b.Path, noop)
+	if err1 != nil || err2 != nil {
+		panic("generator produced a route the constructor rejects")
+	}
+	r := 0
+	if x.Equal(*y) {
+		r = 1
+	}
+	emitLine("RQ\t%s:%s\t%s:%s\t%d", hx(a.Name), hx(a.Path), hx(b.Name), hx(b.Path), r)
 }
 
 var eqNames = []string{"a", "b", "a b", "b c", "c"}
@@ -187,6 +208,28 @@ func decSpec(s string) (cfgSpec, error) {
 
 func runEqual() {
 	switch *mode {
+	case "routepair": // replay: -case file with two tokens namehex:pathhex
+		b, err := os.ReadFile(*caseArg)
+		if err != nil {
+			fmt.Fprintln(os.Stderr, err)
+			os.Exit(2)
+		}
+		ls := strings.Fields(string(b))
+		if len(ls) < 2 {
+			fmt.Fprintln(os.Stderr, "routepair file needs two encoded routes")
+			os.Exit(2)
+		}
+		dec := func(s string) rt {
+			np := strings.Split(s, ":")
+			if len(np) != 2 {
+				fmt.Fprintln(os.Stderr, "bad route encoding", s)
+				os.Exit(2)
+			}
+			n, _ := hex.DecodeString(np[0])
+			q, _ := hex.DecodeString(np[1])
+			return rt{string(n), string(q)}
+		}
+		emitRouteEq(dec(ls[0]), dec(ls[1]))
 	case "pair": // replay: -case file with two lines, each an encoded configuration
 		b, err := os.ReadFile(*caseArg)
 		if err != nil {
@@ -221,6 +264,20 @@ func runEqual() {
 			}
 		}
 	case "fields":
+		// Route.Equal on every pair over the random pools (names x paths)
+		var rs []rt
+		for _, n := range rndNames {
+			for _, p := range rndPaths {
+				rs = append(rs, rt{n, p})
+			}
+		}
+		for i, x := range rs {
+			for j, y := range rs {
+				if i == j || x.Name == y.Name || x.Path == y.Path || (i*31+j)%17 == 0 {
+					emitRouteEq(x, y)
+				}
+			}
+		}
 		a := baseCfg()
 		vs := routeVariants(a.Routes)
 		for mask := 0; mask < 32; mask++ {
